@@ -32,9 +32,13 @@ MODELLED_NOT_VERIFIED = [
     "C20: texts with a quoted single structural character ('(' ')' ',' ':' ';') are judged by the oracle but not compared with the model, and blank "
     "(anonymous, childless, length-less) Newick nodes are dropped from both sides of the tree comparison: both are the subject of C02, not of this statement",
 ]
-EXPLANATION = ("Theorems (Props/C20.lean): tokenizer progress (nextT_shorter), every reader loop is a total function by recursion on a strictly "
-               "shorter input, verdicts are only ok/parseError on every input incl. every prefix (eof_is_parse_error), accepted Newick "
-               "statements are parenthesis-balanced and terminated (newick_balanced), accepted PHYLIP matrices have the declared dimensions (ok_dims).")
+EXPLANATION = ("Theorems (Props/C20.lean, about the definitions drv_c20 runs; all loops are total functions without fuel): tokenizer_progress "
+               "(a token always costs input), token_count_bounded, newick_statement_progress + newick_never_internal (tree_iter cannot spin or fail "
+               "internally on any text), newick_balanced (an accepted statement is parenthesis-balanced and ends in ';'), ok_dims (an accepted PHYLIP "
+               "matrix has exactly the declared rows x columns), reader_loops_total (every `iter` loop with a consuming body terminates without the "
+               "internal marker and never gives input back), eof_is_parse_error_partial: skip_to_semicolon/_consume_to_end_of_block stop on every "
+               "prefix - _partial because the bodies of the remaining NEXUS block/statement loops are not yet shown `GoodBody` in Lean; for them the "
+               "driver's verdict (ok/parse/internal) is compared with the implementation on every generated input instead.")
 
 ROUTES = {
     "newick": ["treelist", "treelist", "treelist", "tree", "dataset"],
